@@ -106,6 +106,58 @@ def resolve_import_shape():
     return local_name, lookup, recursive_calls, params
 
 
+def blacklist_shape():
+    """The body of is_in_import_blacklist statement by statement (docstring dropped), how the patterns are put
+    together and compiled, and the rung of resolve_import that consults it."""
+    import ast
+    import inspect
+
+    from rattr.config import _types as T
+    from rattr.config import Config
+    from rattr.module_locator import util as U
+    from rattr.results import _find_call_target as F
+
+    fn = ast.parse(inspect.getsource(U.is_in_import_blacklist.__wrapped__)).body[0]
+    body = [ast.unparse(st) for st in fn.body
+            if not (isinstance(st, ast.Expr) and isinstance(st.value, ast.Constant) and isinstance(st.value.value, str))]
+    decorators = [ast.unparse(d) for d in fn.decorator_list]
+    methods = sorted({n.func.attr for n in ast.walk(fn) if isinstance(n, ast.Call) and isinstance(n.func, ast.Attribute)
+                      and isinstance(n.func.value, ast.Name) and n.func.value.id == "re_pattern"})
+    cls = ast.parse(inspect.getsource(T)).body
+    union, compiled, recompile = "", "", ""
+    for node in ast.walk(ast.Module(body=cls, type_ignores=[])):
+        if isinstance(node, ast.FunctionDef) and node.name == "blacklist_patterns":
+            union = ast.unparse(node.body[-1])
+        if isinstance(node, ast.FunctionDef) and node.name == "re_blacklist_patterns":
+            compiled = ast.unparse(node.body[-1])
+        if isinstance(node, ast.FunctionDef) and node.name == "_cached_re_compile":
+            recompile = ast.unparse(node.body[-1])
+    rs = ast.parse(inspect.getsource(F.resolve_import)).body[0]
+    rung = [ast.unparse(st) for st in rs.body if isinstance(st, ast.If) and "is_in_import_blacklist" in ast.unparse(st.test)]
+    return body, decorators, methods, union, compiled, recompile, rung, sorted(Config.MODULE_BLACKLIST_PATTERNS)
+
+
+def local_resolution_shape():
+    """__resolve_target_and_ir, __is_defined_in, __resolve_real_class_target statement by statement, and the fields
+    attrs compares for Func / Class (the location must not be among them: the model's `eqv`)."""
+    import ast
+    import inspect
+
+    import attrs
+    from rattr.models.symbol import Class, Func
+    from rattr.results import _find_call_target as F
+
+    mod = ast.parse(inspect.getsource(F))
+    bodies = {}
+    for node in mod.body:
+        if isinstance(node, ast.FunctionDef) and node.name in ("__resolve_target_and_ir", "__is_defined_in",
+                                                                "__resolve_real_class_target"):
+            bodies[node.name] = [ast.unparse(st) for st in node.body
+                                 if not (isinstance(st, ast.Expr) and isinstance(st.value, ast.Constant))]
+    eq_fields = [(c.__name__, [f.name for f in attrs.fields(c) if f.eq]) for c in (Func, Class)]
+    return bodies, eq_fields
+
+
 def tables():
     rows = probe_symbols()
     body = ",\n".join(
@@ -121,4 +173,38 @@ def tables():
         f"def moduleContextLookup : String := {lstr(lookup or '')}",
         f"def resolveImportRecursiveCalls : Nat := {rec}",
         f"def resolveImportParams : List String := [{', '.join(lstr(p) for p in params)}]",
+    ] + blacklist_tables() + local_tables()
+
+
+def local_tables():
+    bodies, eq_fields = local_resolution_shape()
+    esc = lambda x: lstr(x).replace("\n", "\\n")
+    ll = lambda xs: "[" + ", ".join(esc(x) for x in xs) + "]"
+    return [
+        "/-- `__resolve_target_and_ir`, statement by statement -/",
+        f"def resolveTargetAndIrBody : List String := {ll(bodies.get('__resolve_target_and_ir', []))}",
+        f"def isDefinedInBody : List String := {ll(bodies.get('__is_defined_in', []))}",
+        f"def realClassTargetBody : List String := {ll(bodies.get('__resolve_real_class_target', []))}",
+        "/-- the fields attrs' `__eq__` compares, per symbol class -/",
+        "def symbolEqFields : List (String × List String) := [" + ", ".join(f"({lstr(c)}, {ll(fs)})" for c, fs in eq_fields) + "]",
+    ]
+
+
+def blacklist_tables():
+    body, decorators, methods, union, compiled, recompile, rung, builtin = blacklist_shape()
+    esc = lambda x: lstr(x).replace("\n", "\\n")
+    ll = lambda xs: "[" + ", ".join(esc(x) for x in xs) + "]"
+    return [
+        "/-- `is_in_import_blacklist`, statement by statement (ast.unparse, docstring dropped) -/",
+        f"def blacklistBody : List String := {ll(body)}",
+        f"def blacklistDecorators : List String := {ll(decorators)}",
+        "/-- the `re.Pattern` methods applied to a blacklist pattern -/",
+        f"def blacklistMatchMethods : List String := {ll(methods)}",
+        f"def blacklistPatternUnion : String := {lstr(union)}",
+        f"def blacklistPatternCompile : String := {lstr(compiled)}",
+        f"def blacklistReCompile : String := {lstr(recompile)}",
+        "/-- the rung(s) of `resolve_import` that consult the blacklist -/",
+        f"def resolveImportBlacklistRung : List String := {ll(rung)}",
+        "/-- `Config.MODULE_BLACKLIST_PATTERNS`, sorted -/",
+        f"def builtinBlacklistPatterns : List String := {ll(builtin)}",
     ]
